@@ -40,6 +40,25 @@ fn main() {
 			println!("determinism: {} seeds x2, {} mismatches", count, bad);
 			std::process::exit(if bad == 0 { 0 } else { 2 });
 		},
+		"rep" => {
+			// every run, replayed from its recorded trace, must produce the same history
+			std::env::set_var("TRANSPORTSIM_KEEP_REPLAY", "1");
+			let profile = args.get(2).cloned().unwrap_or_else(|| "mix".into());
+			let count: u64 = args.get(3).and_then(|s| s.parse().ok()).unwrap_or(200);
+			let mut bad = 0;
+			for i in 0..count {
+				let seed = mix(7, i);
+				let a = run_isolated(|| TransportSim.run(&profile, seed, tier()));
+				let rep = a.replay.clone().expect("replay kept");
+				let b = run_isolated(|| TransportSim.replay(&rep));
+				if a.history_fp != b.history_fp || a.steps != b.steps || a.counters != b.counters {
+					println!("REPLAY-MISMATCH seed {} {:016x} vs {:016x} steps {} vs {}", seed, a.history_fp, b.history_fp, a.steps, b.steps);
+					bad += 1;
+				}
+			}
+			println!("replay equivalence: {} seeds, {} mismatches", count, bad);
+			std::process::exit(if bad == 0 { 0 } else { 2 });
+		},
 		"one" => {
 			let profile = args.get(2).cloned().unwrap_or_else(|| "mix".into());
 			let seed: u64 = args.get(3).and_then(|s| s.parse().ok()).unwrap_or(1);
